@@ -278,6 +278,26 @@ func runC13(r *an.Run) {
 					o.FailAt(f.ID+"#trigger-height", s.Where(), "the trigger height of a closed channel is %s, expected the recorded closing height", c)
 				}
 			}
+			// the relaunched resolvers are re-supplemented from the set of
+			// the commitment that confirmed
+			rr := p.Func(arb + "relaunchResolvers")
+			nConf := 0
+			for _, s := range rr.Assigns(an.LocalNamed("confirmedHTLCs"), false) {
+				as := s.Node.(*ast.AssignStmt)
+				ix, ok := as.Rhs[0].(*ast.IndexExpr)
+				if !ok {
+					continue
+				}
+				nConf++
+				c := rr.Canon(ix.Index)
+				o.Site("relaunchResolvers: confirmed HTLCs = %s[%s]", rr.Canon(ix.X), c)
+				if rr.Canon(ix.X) != "$p0.HtlcSets" || !strings.HasPrefix(c, "$p0.ConfCommitKey.UnwrapOrErr(") {
+					o.FailAt(rr.ID+"#confirmed-set", s.Where(), "the resolvers are re-supplemented from %s[%s], expected the HTLC set stored under the confirmed commitment's own key", rr.Canon(ix.X), c)
+				}
+			}
+			if nConf != 1 {
+				o.FailAt(rr.ID+"#confirmed-set-sites", rr.Where(rr.Body.Pos()), "expected one lookup of the confirmed HTLC set in relaunchResolvers, found %d", nConf)
+			}
 			// the relaunch condition
 			rl := f.Calls(an.CalleeIs(arb+"relaunchResolvers"), false)
 			if need(o, f, "relaunchResolvers", rl, 1) {
